@@ -62,7 +62,7 @@ enum {
 enum {
 	FAM_LOCKONLY = 0, FAM_MUMIX, FAM_CVMONITOR, FAM_CVCOVER, FAM_TIMEDWAIT, FAM_CCSMONO, FAM_CCSBUF, FAM_ONCE, FAM_NOTETREE,
 	FAM_NOTEFAMILY, FAM_COUNTER, FAM_WAITN, FAM_SEM, FAM_REFCOUNT, FAM_WAKERFRAME, FAM_BARGE, FAM_BARGERAND, FAM_GRID,
-	FAM_DEBUGCONC, FAM_DEBUGBUF, FAM_ALLOCFAIL, FAM_TIMEDSTARVE, FAM_N
+	FAM_DEBUGCONC, FAM_DEBUGBUF, FAM_ALLOCFAIL, FAM_TIMEDSTARVE, FAM_READDEPTH, FAM_N
 };
 
 typedef struct { int kind; int a[NARGS]; } op_t;
